@@ -24,7 +24,7 @@ ERR_PATTERNS = [
 def classify(e):
     msg = str(e)
     if isinstance(e, util.SelectorSyntaxError):
-        first = msg.split('\n')[0]
+        first = msg.rsplit('\n  line ', 1)[0]
         for code, pat in ERR_PATTERNS:
             if re.search(pat, first, re.S):
                 return code
